@@ -72,27 +72,28 @@ def html_escape(string):
 # ------------------[ thread safe props] -------------------
 def ts_props(*props, store_name=None):
     def wrapper(cls):
-        local_store = None
+        # the store in use is the one of the instance initialised last *in this thread*
+        current = threading.local()
         cls_init = cls.__init__
 
         def init_wrapper(self, *a, **kw):
-            nonlocal local_store
             local_store = getattr(self, store_name, None)
             if local_store is None:
                 local_store = threading.local()
                 setattr(self, store_name, local_store)
+            current.store = local_store
             [setattr(local_store, k, None) for k in props]
             cls_init(self, *a, **kw)
 
         def make_prop(k):
             def fget(s):
-                return getattr(local_store, k)
+                return getattr(current.store, k)
 
             def fset(s, v):
-                return setattr(local_store, k, v)
+                return setattr(current.store, k, v)
 
             def fdel(s):
-                return delattr(local_store, k)
+                return delattr(current.store, k)
             doc = 'Local property: %s' % k
             return property(fget, fset, fdel, doc)
 
